@@ -569,3 +569,24 @@ mod tests {
         assert!(!r.gather().is_empty());
     }
 }
+
+#[cfg(feature = "verif")]
+#[doc(hidden)]
+impl Registry {
+    /// Canonical dump of the internal admission state (verification builds
+    /// only): sorted collector ids, descriptor ids and dimension hashes.
+    pub fn verif_dump(&self) -> String {
+        let core = self.r.read();
+        let mut cids: Vec<u64> = core.collectors_by_id.keys().cloned().collect();
+        cids.sort_unstable();
+        let mut dids: Vec<u64> = core.desc_ids.iter().cloned().collect();
+        dids.sort_unstable();
+        let mut dims: Vec<(String, u64)> = core
+            .dim_hashes_by_name
+            .iter()
+            .map(|(k, v)| (k.clone(), *v))
+            .collect();
+        dims.sort();
+        format!("c={:?} d={:?} h={:?}", cids, dids, dims)
+    }
+}
